@@ -263,6 +263,18 @@ func (s *e1State) replacementOK(pair int, name string, rinfo, finfo *types.Info,
 							}
 						}
 						if same {
+							// same place: the wrapper call must lie between the same two matched statements as the
+							// reference's transfer (moving it across the capture block or the account creation
+							// changes what the debug tracers and the snapshot observe)
+							refRun := ""
+							for k2, r2 := range d.RefOnly {
+								if r2 == rs && k2 < len(d.RefOnlyRun) {
+									refRun = d.RefOnlyRun[k2]
+								}
+							}
+							if refRun == "" || in.Run != refRun {
+								return false, "the TransferWithRecord call is not at the position of the reference's transfer call (it has moved across statements the reference executes before or after the transfer)"
+							}
 							used[in] = true
 							return true, "TRANSFER_REPLACEMENT: the reference's transfer call is passed, with the same arguments, to Tracer.TransferWithRecord, whose wrapper summary (R13.1) is exactly one call of it with (db, from, to, amount)"
 						}
